@@ -159,7 +159,9 @@ IntrinsicNames == {"abs", "mod", "modulo", "max", "min", "sign", "int", "nint", 
 
 RECURSIVE Eval(_, _), EvalSeq(_, _)
 
-EvalSeq(cs, env) == [i \in 1..Len(cs) |-> Eval(cs[i], env)]
+\* TLCEval forces the function: TLC function constructors are lazy and would re-evaluate the
+\* sub-expressions at every access (exponential in the nesting depth)
+EvalSeq(cs, env) == TLCEval([i \in 1..Len(cs) |-> Eval(cs[i], env)])
 
 RECURSIVE FoldAdd(_, _), FoldMul(_, _), FoldAnd(_, _), FoldOr(_, _)
 FoldAdd(vs, n) == IF n = 1 THEN vs[1] ELSE AddV(FoldAdd(vs, n - 1), vs[n])
